@@ -9,6 +9,7 @@ import itertools
 import json
 import subprocess
 import vcheck
+import vworker
 from vcheck import coq_string, coq_list, coq_z
 
 HEADER = "From V.C12 Require Import Spec Model Run.\nOpen Scope string_scope.\n"
@@ -130,10 +131,8 @@ def coq_case(c, obs, pt, pobs):
 
 
 def run_impl(binary, cases):
-    inp = "\n".join(json.dumps(c) for c in cases) + "\n"
-    p = subprocess.run([binary], input=inp, stdout=subprocess.PIPE, stderr=subprocess.PIPE, text=True, timeout=1500)
-    outs = [json.loads(l) for l in p.stdout.splitlines() if l.strip()]
-    return outs, p.returncode, p.stderr
+    """a worker that dies or hangs is attributed to the case in flight ({"worker_death": ...}) and restarted"""
+    return vworker.run_worker([binary], cases, per_case_timeout=60), 0, ""
 
 
 def mk(ops, names=LOOK, consts=CONSTS):
@@ -315,11 +314,15 @@ def main(ck):
     terms, idx = [], []
     for i, (c, t) in enumerate(cases):
         o = obs_of(c)
+        if "worker_death" in o:
+            ck.violation("worker-death:" + str(o["worker_death"].get("signature")),
+                         {"case": c, "purge_t": t, "impl_out": o["worker_death"], "clause": "the engine process died or hung while running this history"})
+            continue
         if o.get("err"):
             ck.violation("impl-error", {"case": c, "impl_out": o, "clause": "harness/implementation error"})
             continue
         po = obs_of(dict(c, ops=purge(t, c["ops"]))) if t is not None else None
-        if po is not None and po.get("err"):
+        if po is not None and (po.get("err") or "worker_death" in po):
             po = None
         terms.append(coq_case(c, o, t, po))
         idx.append(i)
@@ -368,7 +371,7 @@ def main(ck):
             nontriv += 1
     res = {}
     for o in outs:
-        for s in o.get("steps", []):
+        for s in (o.get("steps") or []):
             res[str(s["r"])] = res.get(str(s["r"]), 0) + 1
     ck.cov["op_kind_distribution"] = dist
     ck.cov["length_distribution_by_5"] = lens
